@@ -8,14 +8,20 @@ det = {}
 for a in sys.argv[5:]:
     p, k = a.split("=", 1)
     det.setdefault(p, []).append(k)
-base = "/tmp/seed_%s" % sid
-ver = json.load(open(base + "/verify.json"))
+if os.path.isdir(sid):
+    base = sid
+    ver = json.load(open(base + "/verify.json"))
+    outd = base
+else:
+    base = "/tmp/seed_%s" % sid
+    ver = json.load(open(base + "/verify.json"))
+    outd = base + "/out"
 assert ver["confirmed"], "not confirmed"
-meta = json.load(open(base + "/out/meta.json"))
+meta = json.load(open(outd + "/meta.json"))
 dst = os.path.join(VERIF, "seeded", name)
 os.makedirs(dst, exist_ok=True)
-shutil.copy(base + "/out/patch.diff", dst + "/patch.diff")
-shutil.copy(base + "/out/demo.diff", dst + "/demo.diff")
+shutil.copy(outd + "/patch.diff", dst + "/patch.diff")
+shutil.copy(outd + "/demo.diff", dst + "/demo.diff")
 out = {
     "property": meta["property"],
     "summary": meta.get("summary"),
